@@ -49,6 +49,8 @@ def insertU (hasDb : Bool) (s : Store) : Nat → WN → List Nib → WN → IRes
           if vv = nv then { node := .value vh vv vw vd }
           else { node := .value vh nv nw true, change := wrapI64 ((nw : Int) - vw) }
         | _ => { node := node, err := some .panic }
+      | .routing _ _ _ _ _ => { node := node, err := some .invalidKey }
+      | .short _ _ _ _ _ => { node := node, err := some .invalidKey }
       | _ => { node := value, change := wrapI64 value.weight }
   | fuel + 1, node, k :: ks, value =>
     match node with
@@ -63,6 +65,9 @@ def insertU (hasDb : Bool) (s : Store) : Nat → WN → List Nib → WN → IRes
       if p = key.length then
         let r := insertU hasDb s fuel c ((k :: ks).drop p) value
         { node := .short key h r.node true tc, change := r.change, err := r.err, td := r.td }
+      else if p = (k :: ks).length then
+        -- fix 5dc7120: the key ends inside this node's key
+        { node := .short key h c true tc, err := some .invalidKey }
       else
         match nibOf (key.getD p 0), (k :: ks)[p]? with
         | some i1, some i2 =>
@@ -107,7 +112,7 @@ def deleteU (H : Bytes → Bytes) (hasDb : Bool) (s : Store) : Nat → WN → Li
           | n' => { node := .short sk h n' true tc, change := r.change, td := r.td }
     | .routing h ch w d tc =>
       match key with
-      | [] => { node := .routing h ch w d tc, err := some .panic }
+      | [] => { node := .routing h ch w d tc, err := some .notFound }   -- a branch below the full key depth (round-4 fix)
       | k :: ks =>
         let r := deleteU H hasDb s fuel (ch k) ks
         match r.err with
